@@ -69,7 +69,7 @@ struct Dom : CompositeBase
         auto hist = parse_history(cid.substr(cid.find('|') + 1));
         const std::string last = hist.empty() ? "empty" : hist.back().f;
         auto viol = [&](const std::string& inv, const std::string& what) { a.violation(fam + "|" + inv, "[" + schema_name(sch) + "] " + what, cid); };
-        std::string o1, o1_tail, o2, mem_obs;
+        std::string o1, o1_tail, o2, mem_obs, dir_before;
         std::map<int64_t, std::string> held_c, held_t;  // what the retained handles answer just before closing
         bool ok = true;
         try
@@ -98,6 +98,7 @@ struct Dom : CompositeBase
                 }
                 o1 = observe(wd, true, false);
                 mem_obs = observe(wmem, true, false);
+                dir_before = wd.db.directory();
                 // A tail that the exploration cannot produce (it changes no stored state): calls that throw inside the library, followed by
                 // one more successful write. If a failed call leaves a transaction open, everything written afterwards is lost on close.
                 for (auto& t : wd.db.tracks())
@@ -149,6 +150,22 @@ struct Dom : CompositeBase
                 if (wl.loaded_schema != sch) viol("loaded_schema", "load_database reported schema " + (wl.loaded_schema == eng::engine_schema::schema_3_0_0 ? std::string("(not set)") : schema_name(wl.loaded_schema)) + " for a library created as " + schema_name(sch));
             }
             if (o1_tail != o2) { ok = false; viol("observation_changed_by_reopen", first_diff(o1_tail, o2)); }
+            {
+                World wl(sch, dir, 1);
+                if (wl.db.directory() != dir_before) { ok = false; viol("directory_changed_by_reopen", "directory() was " + dir_before + " before closing and is " + wl.db.directory() + " after reopening"); }
+            }
+            if (wmem.v2)
+            {
+                // the second public loader of a 2.x library must show the same library
+                size_t before = seam::opened_handles().size();
+                auto lib = eng::v2::engine_library::load(dir);
+                if (seam::opened_handles().size() <= before) throw std::runtime_error("C10: SQLite handle not captured");
+                if (lib.directory() != dir_before) { ok = false; viol("directory_changed_by_reopen", "directory() was " + dir_before + " before closing; v2::engine_library::load(...).directory() is " + lib.directory()); }
+                World wl(sch, lib.database(), seam::opened_handles().back());
+                if (wl.db.directory() != dir_before) { ok = false; viol("directory_changed_by_reopen", "directory() was " + dir_before + " before closing; the database of v2::engine_library::load reports " + wl.db.directory()); }
+                std::string o2b = observe(wl, true, false);
+                if (o2b != o2) { ok = false; viol("second_loader_observes_differently", first_diff(o2, o2b)); }
+            }
             {
                 World wl(sch, dir, 1);
                 for (auto& kv : held_c)
@@ -256,7 +273,7 @@ int run(const Options& o)
         "state up to the depth bound. For EACH distinct state its history is replayed on an on-disk library created with create_database(dir, schema) in a tmpfs scratch directory; the full "
         "public-API observation (every getter and snapshot of every track, every crate query, uuid, version name) is taken; then calls that throw inside the library (slot index 8 / -1, rename to a "
         "sibling's name, self-parent) and one more successful write follow, and the observation is taken again; all handles are released, load_database(dir, loaded) is called and "
-        "the observation repeated: both must be identical (before closing every entity is also changed through a second handle obtained by id, and what the handle kept since its creation answers then must equal what a lookup by id answers after reopening), `loaded` must be the creating schema, the on-disk observation must equal the in-memory one for the same history, database_exists must "
+        "the observation repeated: both must be identical (before closing every entity is also changed through a second handle obtained by id, and what the handle kept since its creation answers then must equal what a lookup by id answers after reopening), `loaded` must be the creating schema, directory() must be unchanged, a 2.x library loaded through v2::engine_library::load must give the same observation and directory, the on-disk observation must equal the in-memory one for the same history, database_exists must "
         "be true, create_or_load_database must report created = false (also when a schema of the other generation is requested) and leave the library unchanged, and on an empty directory "
         "created = true. Non-trivial = distinct observations.";
     c["exhaustive"] = exhaustive;
